@@ -20,7 +20,14 @@ CHECK = {
            'of len+8 steps, asked for len and get(i), and compared with a reference sequence computed from the definition in the property; every yielded '
            'pointer is classified against the set of legitimate element pointers before it is looked at.  A composite is judged only in the aspects whose '
            'component aspects conform on their own (else counted as masked).  distinct_nontrivial = cases that select at least one item and, for selecting '
-           'views (Slice, Filter), not simply all items in the original order; leaves/Ranges with >= 2 items; Zips of >= 2 inputs; Maps / enumerate with >= 1 item.'),
+           'views (Slice, Filter), not simply all items in the original order; leaves/Ranges with >= 2 items; Zips of >= 2 inputs; Maps / enumerate with >= 1 item.  '
+           'phase=history: every container kind is grown to n items and emptied one removal at a time in six enumerated orders (front / back / middle position, '
+           'ascending / descending / interleaved value), once more after a refill; after EVERY operation len == forward count == backward count, backward is the exact '
+           'reverse of forward, the items are the reference model\'s, get / mem of every yielded item agree and removed items are absent (states = container states '
+           'checked, transitions = operations; non-trivial = histories of n >= 11, which cross a Table/Array capacity boundary in both directions).  '
+           'phase=assign: for Range, Slice, Zip, Filter, Map assign(a, b) from a heap and from a stack source (and copy(b) for Filter / Map) must give an independent '
+           'iterator: same walks / len as b, nested iteration over both gives len*len right pairs, target-source-target walks agree, after del(source) every item the '
+           'target hands out is a live object with the right value, and a target assigned from a stack object inside a helper that returned still walks correctly.'),
   'bounds': {
     'quick': ('leaves: Array/List/stack Tuple/heap Tuple/Table/Tree x length 0..6, Tuples holding one object twice (all position pairs, length 2..5); '
               'Range: all four arities over {_, -7..7}^3 (4,096); Slice: arities slice(I) / (I,stop) / (I,start,stop) / (I,start,stop,step) + reverse(I) over '
@@ -28,6 +35,8 @@ CHECK = {
               '+ enumerate over 7 kinds x length 0..6; Filter: all 2^n masks, n <= 5, 7 kinds (441); Map: 2 functions (98); compositions outer(inner(leaf)): '
               '25 x 25 views (14 slices incl. reverse, 5 filters, 2 maps, 3 zips incl. zip of two equal-shaped views over leaves of unequal length, enumerate) x 7 kinds x length 0..4; '
               'nesting depth 3 over the same family x 7 kinds x length 0..3; views constructed with new() at length <= 3; '
+              'histories: Array/List/heap Tuple/Table/Tree (maps also with keys colliding modulo 5, 11, 55) x n in {5,6,11,12,23,24,54} x 6 removal orders x {once, refill and again} '
+              '(420 histories, every state checked; ASan n <= 24); assign/copy: 43 parameter sets x {heap source, stack source, copy} x 4 scenarios (243 cases, also under ASan); '
               'ASan+UBSan (clang): the same grids one size step smaller (length <= 4, Slice/Range args in [-5..5], compositions length <= 3, depth 3 length <= 2)'),
     'thorough': ('as quick with length 0..8 (leaves, Slice, Map, enumerate), Slice args {_, -10..10}^3 (11,156 x 63 = 702,828), Range {_, -9..9}^3 (8,000), Zip children length 0..4 (44,136), '
                  'Filter n <= 8 (3,577); compositions depth 2 with every slice {_, -3..3}^3 as inner and as outer view (523 x 523 views) x 7 kinds x length 0..6; '
@@ -45,6 +54,8 @@ CHECK = {
     'Table order is unspecified and Tree order only monotone: their own validated forward order (each key once) is the reference for everything built on them; '
     'get(i) is not positional for them and not judged',
     'a Tuple holding the same object twice is a separate dimension (leaves only); Terminal inside a Tuple is documented as unsupported and not explored',
+    'copy() of a Range, Slice or Zip raises on the current tree and is not part of the assign/copy grid; Zips and views in that grid are built over containers '
+    '(a Range shared by two views is one cursor by design); a Zip of unequal lengths is not walked backwards there (recorded finding D17)',
     'gcc/clang, glibc and the sanitizer run-times are trusted; element values beyond the small Int universe are represented by it (iteration never looks at values)',
   ],
   'instances': {
@@ -61,6 +72,8 @@ CHECK = {
       + per_kind('compose-asan', 'asan', 'phase=compose', 'maxn=3')
       + per_kind('compose3-asan', 'asan', 'phase=compose', 'depth=3', 'maxn=2')
       + [I('heap-asan', 'asan', 'phase=heap', 'maxn=2', 'amax=2', 'rmax=2', 'zmax=2', 'fmax=2')]
+      + [I('history', 'base', 'phase=history'), I('history-asan', 'asan', 'phase=history', 'hmax=24')]
+      + [I('assign', 'base', 'phase=assign'), I('assign-asan', 'asan', 'phase=assign')]
     ),
     'thorough': (
       [I('base', 'base', 'phase=base', 'maxn=8'), I('range', 'base', 'phase=range', 'rmax=9')]
@@ -75,6 +88,8 @@ CHECK = {
       + per_kind('compose-asan', 'asan', 'phase=compose', 'maxn=3', 'cset=full')
       + per_kind('compose3-asan', 'asan', 'phase=compose', 'depth=3', 'maxn=4')
       + [I('heap-asan', 'asan', 'phase=heap', 'maxn=3', 'amax=3', 'rmax=3', 'zmax=2', 'fmax=3')]
+      + [I('history', 'base', 'phase=history'), I('history-asan', 'asan', 'phase=history')]
+      + [I('assign', 'base', 'phase=assign'), I('assign-asan', 'asan', 'phase=assign')]
     ),
   },
 }
